@@ -414,8 +414,12 @@ class MembersType(Type):
                 if addition_encoder.number_of_bits > 0 or addition.name in data:
                     addition_encoders.append(addition_encoder)
                     presence_bits |= 1
-        except EncodeError:
-            pass
+        except EncodeError as e:
+            # A missing addition ends the additions (a value of an
+            # older version of the type). An error within a present
+            # addition is an error.
+            if e.location:
+                raise
 
         # Return false if no extension additions are present.
         if not addition_encoders:
